@@ -4,7 +4,8 @@ from . import pytree_rows as P
 
 # second (and later) trees checked against contexts in which an earlier tree bound T and per-leaf sizes
 QUICK = dict(Mode="leaf", Depth=2, Width=2, NodeKinds={"tuple"}, AtomSet={"int", "arr2", "arr3", "arr23"}, SmallDepth=1,
-             LeafSet={"arrQ", "arrQV", "uQ", "tupQ", "ptQ", "arrQa", "arraQ"}, MemoSet={"empty", "a2", "qT23", "qT23a", "qTv"})
+             LeafSet={"arrQ", "arrQV", "uQ", "tupQ", "ptQ", "arrQa", "arraQ", "arrBQV"},
+             MemoSet={"empty", "a2", "qT23", "qT23a", "qTv", "qTbv"})
 # beneath two nested structured PyTrees: AnnotationError as soon as the inner one has a leaf
 NESTED = dict(Mode="leaf", Depth=2, Width=2, NodeKinds={"tuple"}, AtomSet={"arr2", "arr3"}, SmallDepth=1,
               LeafSet={"ptSQ", "ptSA"}, MemoSet={"empty", "qT23"})
